@@ -28,7 +28,8 @@ FINDING_IDS = ["C18-empty-value-matcher-dropped", "C18-absent-label-matcher-igno
                "C18-rate-subsecond-range-integer-division", "C18-range-query-aggregation-over-offset",
                "C18-range-function-step-greater-than-range", "C18-resets-empty-window-zero",
                "C18-absent-over-time-offset-range-query", "C18-absent-negative-matcher-on-absent-label",
-               "C18-range-binop-pairs-next-series-after-end", "C18-instant-range-function-drops-series-ending-stale"]
+               "C18-range-binop-pairs-next-series-after-end", "C18-instant-range-function-drops-series-ending-stale",
+               "C18-holt-winters-infinite-sample-nan", "C18-absent-label-kept-despite-second-matcher"]
 
 
 _PORT_LOCK = None   # keeps the flock on the chosen port block for the life of this process
@@ -437,6 +438,11 @@ def main(ck):
             len(bad_oracle), bad_oracle[0]["expr"], bad_oracle[0]["up_ri_diff"]))
     ck.cov["samples"] = [{"expr": c["expr"], "mode": c["mode"], "t": c.get("t"), "start": c.get("start"), "end": c.get("end"),
                           "step": c.get("step"), "nseries": c.get("nseries")} for c in cases[:4]]
+    nonrep = [c for c in cases if c.get("non_replayable")]
+    ck.cov["non_replayable_disagreements"] = len(nonrep)
+    if nonrep:
+        ck.notes.append("%d disagreement(s) persisted over 12 s of re-asking but did NOT reproduce on the same samples written again to a fresh "
+                        "database (not reported: a violation must be replayable), e.g. %s: %s" % (len(nonrep), nonrep[0]["expr"], nonrep[0]["non_replayable"][:200]))
     stale = [f["id"] for f in ck.findings if f.get("status") == "open" and f["id"] not in known_count]
     if stale:
         ck.notes.append("open findings that did not reproduce in this run (stale or not sampled): " + ", ".join(stale))
